@@ -70,7 +70,12 @@ RULE = ("(a) seeded random class specifications (harness/initgen.py option space
         "and distinct bodies and garbage collection in between; (e) 2/4/8 threads defining same-qualname "
         "classes with different bodies under sys.setswitchinterval(1e-6), 60% of them with a trace hook that "
         "yields between the lines of _linecache_and_compile; (f) in a fresh interpreter 40 classes defined in ONE "
-        "module binding a global __dict__ (the defect fixed by 8708354) / a control set of other internal names.  "
+        "module binding a global __dict__ (the defect fixed by 8708354) / a control set of other internal names; "
+        "(g) converter OBJECTS with a history: one attr.Converter / converters.optional(Converter) / pipe(Converter, ..) "
+        "/ plain function object first used for a field of one or two earlier classes, or for another field of the same "
+        "class, then for a differently named field of the class under test (which may have its own field of the earlier "
+        "name with another converter): provenance per helper name, source, and behaviour equal to the same class built "
+        "with a never-used object.  "
         "distinct = distinct case term; "
         "non-trivial = class with at least one field (a, b), at least two definitions (d, e)")
 EXTRA_TRUSTED = [
@@ -282,15 +287,16 @@ class Env:
 class TextClass(g.ClassUnderTest):
     """A real attrs class built from a spec by exec of source text in env's module."""
 
-    def __init__(self, spec, env):
+    def __init__(self, spec, env, shared=None):
         self.env = env
-        self.helpers = {}        # id(callable) -> (role, field)
+        self.shared = shared or {}   # key -> prebuilt converter object (possibly used before, elsewhere)
+        self.helpers = {}        # id(callable) -> [(role, field), ...]
         self.keep = []           # keep helper objects alive (ids must stay unique)
         self.text = None
         super().__init__(spec)
 
     def _reg(self, role, fld, obj):
-        self.helpers[id(obj)] = (role, fld)
+        self.helpers.setdefault(id(obj), []).append((role, fld))
         self.keep.append(obj)
         return obj
 
@@ -312,7 +318,11 @@ class TextClass(g.ClassUnderTest):
                 kw["init"] = False
             if f["kw_only"]:
                 kw["kw_only"] = True
-            if f["converter"] is not None:
+            if f.get("conv_ref") is not None:
+                c = self.shared[f["conv_ref"]]
+                self._reg("RConverter", name, c.converter if isinstance(c, attr.Converter) else c)
+                kw["converter"] = c
+            elif f["converter"] is not None:
                 c = g.mk_converter(name, "c_" + fu, f["converter"])
                 self._reg("RConverter", name, c.converter if isinstance(c, attr.Converter) else c)
                 self.keep.append(c)
@@ -475,12 +485,16 @@ def enc_resolution(r):
     return "(RBuiltins %s %s)" % ("None" if r[1] is None else "(Some %s)" % enc_binding(r[1]), q(r[2]))
 
 
-def classify_value(v, tc):
+def classify_value(v, tc, name=None):
     if isinstance(v, Poison):
         return ("module", object.__getattribute__(v, "tag"))
-    h = tc.helpers.get(id(v))
-    if h is not None:
-        return ("helper", h[0], h[1])
+    hs = tc.helpers.get(id(v))
+    if hs:
+        # one object may serve several fields: it is the helper of the field the name belongs to, if any
+        for r, f in hs:
+            if name is not None and helper_name(r, f) == name:
+                return ("helper", r, f)
+        return ("helper", hs[0][0], hs[0][1])
     if isinstance(v, attr.Attribute) and tc.cls is not None and any(v is a for a in attr.fields(tc.cls)):
         return ("helper", "RField", v.name)
     if v is _compat:
@@ -512,7 +526,7 @@ def resolve_real(glob, n, tc, local_names=()):
     if n in local_names:
         return ("local",)
     if n in glob:
-        return ("global", classify_value(glob[n], tc))
+        return ("global", classify_value(glob[n], tc, n))
     bi = glob.get("__builtins__", None)
     via = None
     if bi is not None:
@@ -1409,6 +1423,110 @@ def getattr_cases(seed, has_original, which=None):
             e.close()
 
 
+# ---- family (g): converter OBJECTS with a history (shared between classes / fields) ------------------
+
+SHARED_NAMES = ["a", "b", "x", "weight", "_p", "converter_a"]
+
+
+def _shared_field(name, uid, i, conv=None, ref=None):
+    return {"name": name, "default": None, "init": True, "kw_only": False, "converter": conv, "validator": False,
+            "validator_style": "arg", "alias": None, "on_setattr": None, "type": False, "uid": "s%d_%s" % (i, uid),
+            "repr": True, "eq": True, "hash": None, "conv_ref": ref}
+
+
+def _shared_spec(uid, fields, plan, which):
+    return {"uid": uid, "api": plan["api"], "base": None, "style": "attrib" if plan["api"] == "attrs" else "attrib_in_define",
+            "slots": plan["slots"][which], "frozen": plan["frozen"][which], "kw_only": False, "exc": False,
+            "cache_hash": False, "pre": None, "post": False, "on_setattr": None, "fields": fields,
+            "c_repr": True, "c_eq": True, "c_hash": False, "c_init": True, "qual": "K", "nest": None}
+
+
+def make_shared_converter(plan, tag):
+    """One converter OBJECT; kind: an explicit attr.Converter, converters.optional(Converter), pipe with a
+    Converter member, or a plain function."""
+    ts, tf = plan["ts"], plan["tf"]
+    if plan["kind"] == "plain":
+        return g.mk_converter("shared", "c_sh" + tag, ("plain", False))
+    base = g.mk_converter("shared", "c_sh" + tag, ("conv", ts, tf, False))
+    if plan["kind"] == "converter":
+        obj = base
+    elif plan["kind"] == "optional":
+        obj = attr.converters.optional(base)
+    else:
+        obj = attr.converters.pipe(base, g.mk_converter("shared", "c_shp" + tag, ("plain", False)))
+    if not hasattr(obj.converter, "sym"):
+        obj.converter.sym, obj.converter.ann = "c_sh" + tag + "_" + plan["kind"], None
+    return obj
+
+
+def gen_shared_plan(rng):
+    n1, n2 = rng.sample(SHARED_NAMES, 2)
+    return {"kind": rng.choice(["converter", "converter", "optional", "pipe", "plain"]),
+            "ts": rng.random() < 0.3, "tf": rng.random() < 0.3, "n1": n1, "n2": n2,
+            # what the class under test looks like: the object serves n2 there; does it also have its own n1?
+            "own": rng.choice(["conv", "plain", "none", "absent"]), "own_first": rng.random() < 0.5,
+            # how the object was used before: in an earlier class, or for another field of the same class
+            "history": rng.choice(["earlier-class", "earlier-class", "same-class-two-fields", "two-earlier-classes"]),
+            "api": rng.choice(["attrs", "define"]), "slots": [rng.random() < 0.5, rng.random() < 0.5],
+            "frozen": [rng.random() < 0.3, rng.random() < 0.3]}
+
+
+def shared_cases(plan, seed, which=None):
+    envs, out = [], []
+    try:
+        def build_under_test(obj, tag):
+            fs = []
+            if plan["history"] == "same-class-two-fields":
+                fs = [_shared_field(plan["n1"], "u" + tag, 0, ref="X"), _shared_field(plan["n2"], "u" + tag, 1, ref="X")]
+            else:
+                own = None
+                if plan["own"] == "conv":
+                    own = _shared_field(plan["n1"], "u" + tag, 0, conv=("conv", False, False, False))
+                elif plan["own"] == "plain":
+                    own = _shared_field(plan["n1"], "u" + tag, 0, conv=("plain", False))
+                elif plan["own"] == "none":
+                    own = _shared_field(plan["n1"], "u" + tag, 0)
+                sh = _shared_field(plan["n2"], "u" + tag, 1, ref="X")
+                fs = [f for f in ([own, sh] if plan["own_first"] else [sh, own]) if f is not None]
+            e = Env("clean")
+            envs.append(e)
+            return TextClass(_shared_spec("u", fs, plan, 1), e, shared={"X": obj})
+
+        # reference: the same specification with a converter object that has never been used
+        ref = build_under_test(make_shared_converter(plan, "0"), "0")
+        # under test: the object has a history
+        obj = make_shared_converter(plan, "0")
+        if plan["history"] in ("earlier-class", "two-earlier-classes"):
+            names = [plan["n1"]] + (["zz"] if plan["history"] == "two-earlier-classes" else [])
+            for k, nm in enumerate(names):
+                e = Env("clean")
+                envs.append(e)
+                early = TextClass(_shared_spec("e%d" % k, [_shared_field(nm, "e%d" % k, 0, ref="X")], plan, 0), e, shared={"X": obj})
+                if early.cls is not None:
+                    behaviour(early, seed)
+        tc = build_under_test(obj, "0")
+        if ref.cls is None or tc.cls is None:
+            if ref.cls is not None:
+                out.append(prop_case(False, {"family": "shared", "plan": plan, "seed": seed, "variant": "model"},
+                                     {"definition_error": tc.def_error, "class_source": tc.text},
+                                     {"family": "shared", "what": "definition-fails"}))
+            return out
+        inp = {"family": "shared", "plan": plan, "seed": seed}
+        b0, b1 = behaviour(ref, seed), behaviour(tc, seed)
+        same = b0 == b1
+        if which in (None, "model"):
+            c = herm_case(tc, same, dict(inp, variant="model"), "shared")
+            if not same:
+                c.seen["first_difference_from_build_with_fresh_converter"] = first_diff(b0, b1)
+            out.append(c)
+        if which in (None, "source"):
+            out.append(src_case(tc, dict(inp, variant="source")))
+        return out
+    finally:
+        for e in envs:
+            e.close()
+
+
 # ---- family (c''): every generated method over the class-option grid ---------------------------
 
 
@@ -1714,6 +1832,10 @@ def generate(tier, seed):
         cases.extend(cs)
         _dist["alias-specs"] += bool(cs)
     cases.extend(safe(grid_source_cases, {"family": "grid", "variant": "all"}))
+    for i in range(60 if quick else 600):
+        plan = gen_shared_plan(rng)
+        sd = rng.randrange(1 << 30)
+        cases.extend(safe(shared_cases, {"family": "shared", "plan": plan, "seed": sd, "variant": "model"}, plan, sd))
     for ho in (False, True):
         sd = rng.randrange(1 << 30)
         cases.extend(safe(getattr_cases, {"family": "getattr", "has_original": ho, "variant": "clean", "seed": sd}, sd, ho))
@@ -1738,6 +1860,9 @@ def _rerun(inp):
         return cs[0]
     if fam == "getattr":
         cs = getattr_cases(inp["seed"], inp["has_original"], which=inp["variant"])
+        return cs[0]
+    if fam == "shared":
+        cs = shared_cases(inp["plan"], inp["seed"], which=inp["variant"])
         return cs[0]
     if fam == "grid":
         cs = grid_source_cases(which=inp["variant"])
